@@ -50,3 +50,37 @@ def _(self: S3, segment: Alias("self._segments[2]")) -> int:
     sample_with(lambda rnd: dict(_mk(rnd), segment=None) and (lambda d: dict(d, segment=d["self"]._segments[2]))(_mk(rnd)))
 
 
+
+
+# ---- images that start at a later initial offset: which segments are part of the image, and where the image starts -----------------------
+from spsdk.exceptions import SPSDKValueError  # noqa: E402
+
+inline("spsdk.image.bootable_image.bimg:BootableImage.init_offset")
+SEGX = Obj(AbsSeg, full_image_offset=Union[Range(0, 1 << 30), Range(-4, -1)], OFFSET_ALIGNMENT=OneOf(1, 1024), _len=Range(0, 1 << 24), excluded=bool)
+S3X = Obj(BootableImage, _segments=ListOf(SEGX, 3), _init_offset=Range(0, 1 << 30))
+
+
+def _mk_x(rnd):
+    d = _mk(rnd)
+    for s in d["self"]._segments:
+        s.excluded = rnd.random() < 0.5
+    return d["self"]
+
+
+@contract("spsdk.image.bootable_image.bimg:BootableImage._update_segments")
+def _(self: S3X):
+    # a segment is left out exactly when it has a fixed offset in front of the initial offset; a floating segment is never left out by this rule
+    ensures(all(s.excluded == (s.full_image_offset >= 0 and s.full_image_offset < self._init_offset) for s in self._segments),
+            label="excluded-iff-static-and-before-the-initial-offset")
+    modifies(self._segments[0].excluded, self._segments[1].excluded, self._segments[2].excluded)
+    sample_with(lambda rnd: {"self": _mk_x(rnd)})
+
+
+@contract("spsdk.image.bootable_image.bimg:BootableImage.init_offset@setter", replay=False)
+def _(self: S3X, offset: int):
+    # the image starts at the first fixed segment offset at or behind the requested one - never at a negative (floating) "offset"
+    raises(SPSDKValueError, offset < 0 or (offset > 0 and not any(s.full_image_offset >= offset for s in self._segments)), label="negative-or-behind-the-last-fixed-segment")
+    ensures(self._init_offset >= 0 and self._init_offset >= offset, label="never-negative-never-before-the-request")
+    ensures(offset == 0 or any(s.full_image_offset == self._init_offset for s in self._segments), label="at-a-fixed-segment-offset")
+    ensures(all(not (offset <= s.full_image_offset and s.full_image_offset < self._init_offset) for s in self._segments), label="the-closest-one")
+    modifies(self._init_offset, self._segments[0].excluded, self._segments[1].excluded, self._segments[2].excluded)
